@@ -178,7 +178,67 @@ class InitCdbUnit(Unit):
             yield "canary:accepted-opcode-is-above-FF", a.opcode > 0xFF
 
 
+class MarshallAfterUse(Unit):
+    """<class>.marshall_cdb / build_cdb for every operation code byte, on a class that has already marshalled a valid
+    CDB (the length and the refusal depend on THIS call's operation code, not on what the class did before)"""
+
+    name = "command/marshall_cdb-after-use"
+    properties = ("C14", "C17", "C09")
+
+    CLASSES = (("scsi_cdb_inquiry", "Inquiry", 0x12), ("scsi_cdb_read10", "Read10", 0x28), ("scsi_cdb_read12", "Read12", 0xA8), ("scsi_cdb_read16", "Read16", 0x88))
+
+    def functions(self):
+        from pyscsi.pyscsi.scsi_command import SCSICommand
+
+        return [SCSICommand.marshall_cdb, SCSICommand.init_cdb]
+
+    def cases(self, tier):
+        return [{"cls": c[1], "via": via} for c in self.CLASSES for via in ("marshall_cdb", "build_cdb")]
+
+    def inputs(self, case):
+        return {"opcode": U(8)}
+
+    def run(self, X, case, a):
+        import importlib
+
+        mod, name, valid = [c for c in self.CLASSES if c[1] == case["cls"]][0]
+        K = getattr(importlib.import_module("pyscsi.pyscsi." + mod), name)
+        first = X.call(K.marshall_cdb, {"opcode": valid})
+        self.first_len = len(first)
+        if case["via"] == "marshall_cdb":
+            return X.call(K.marshall_cdb, {"opcode": a.opcode})
+        obj = object.__new__(K)
+        return X.call(obj.build_cdb, opcode=a.opcode)
+
+    def ensures(self, case, a, out, X):
+        v = a.opcode
+        g6 = V.band(v >= 0x00, v <= 0x1F)
+        g10 = V.band(v >= 0x20, v <= 0x5F)
+        g16 = V.band(v >= 0x80, v <= 0x9F)
+        g12 = V.band(v >= 0xA0, v <= 0xBF)
+        fixed = V.bor(g6, g10, g16, g12)
+        for p in ("C14", "C17"):
+            if out.kind == "raise":
+                yield p, "raises-OpcodeException-only (got %s)" % type(out.exc).__name__, out.raised("OpcodeException")
+                yield p, "refused-only-outside-fixed-length-groups", V.bnot(fixed)
+            else:
+                cdb = out.value
+                yield p, "returns-only-for-fixed-length-groups", fixed
+                ok = isinstance(cdb, (bytearray, V.SBytes))
+                yield p, "cdb-is-bytearray", ok
+                if ok:
+                    n = len(cdb)
+                    yield p, "length-by-the-group-of-this-operation-code", {6: g6, 10: g10, 16: g16, 12: g12}.get(n, False)
+                    if n:
+                        yield p, "byte0-is-the-operation-code", cdb[0] == v
+
+    def canaries(self, case, a, out, X):
+        if out.kind == "return":
+            yield "canary:accepted-opcode-is-C0-or-above", a.opcode >= 0xC0
+
+
 register(OpcodeTableUnit())
 register(CrossSetUnit())
 register(StatusUnit())
 register(InitCdbUnit())
+register(MarshallAfterUse())
